@@ -173,6 +173,9 @@ def run(max_ops=None):
             errors += 1
         after, meta1 = snapshot(pool)
         changed = [k for k in before if k in after and after[k] != before[k]]
+        # state that APPEARS on an operand (e.g. a memoised attribute) is a mutation as well; the class-level epsilon/delta caches may grow
+        changed += ["new:" + k for k in after if k not in before and not k.startswith("cache.")]
+        changed += ["gone:" + k for k in before if k not in after and not k.startswith("cache.")]
         changed += ["meta:" + k for k in meta0 if meta1.get(k) != meta0[k]]
         if changed:
             mutations.append(dict(operation=name, changed=changed[:6]))
